@@ -155,6 +155,83 @@ long Combinator(int kind, int policy, int form, int n, int fail_at, bool pending
   return CountCombinator<FailPolicy::LastFail>(kind, form, n, fail_at, pending);
 }
 
+template <typename F, typename V>
+long WaitCase(int n, int policy, int form, bool pending, int& m_out) {
+  const int m = n > 16 ? 16 : n;
+  m_out = m;
+  std::vector<F> fs;
+  std::vector<yaclib::Promise<V>> ps;
+  for (int i = 0; i < m; ++i) {
+    if constexpr (std::is_same_v<F, yaclib::FutureOn<V>>) {
+      auto [f, p] = yaclib::MakeContractOn<V>(yaclib::MakeInline());
+      fs.push_back(std::move(f));
+      ps.push_back(std::move(p));
+    } else {
+      auto [f, p] = yaclib::MakeContract<V>();
+      fs.push_back(std::move(f));
+      ps.push_back(std::move(p));
+    }
+  }
+  auto set_all = [&ps] {
+    for (auto& p : ps) {
+      if constexpr (std::is_void_v<V>) {
+        std::move(p).Set();
+      } else {
+        std::move(p).Set(1);
+      }
+    }
+  };
+  std::thread producer;
+  if (pending) {
+    producer = std::thread([&] {
+      std::this_thread::sleep_for(300us);
+      set_all();
+    });
+  } else {
+    set_all();
+  }
+  const long n0 = vf::L().news;
+  switch (policy * 3 + form) {
+    case 0:
+      yaclib::Wait(fs.begin(), fs.end());
+      break;
+    case 1:
+      yaclib::Wait(fs.begin(), fs.size());
+      break;
+    case 2:
+      if (m >= 2) {
+        yaclib::Wait(fs[0], fs[1]);
+      } else {
+        yaclib::Wait(fs[0]);
+      }
+      break;
+    case 3:
+      (void)yaclib::WaitFor(5s, fs.begin(), fs.end());
+      break;
+    case 4:
+      (void)yaclib::WaitFor(5s, fs.begin(), fs.size());
+      break;
+    case 5:
+      (void)(m >= 2 ? yaclib::WaitFor(5s, fs[0], fs[1]) : yaclib::WaitFor(5s, fs[0]));
+      break;
+    case 6:
+      (void)yaclib::WaitUntil(std::chrono::steady_clock::now() + 5s, fs.begin(), fs.end());
+      break;
+    case 7:
+      (void)yaclib::WaitUntil(std::chrono::steady_clock::now() + 5s, fs.begin(), fs.size());
+      break;
+    default:
+      (void)(m >= 2 ? yaclib::WaitUntil(std::chrono::steady_clock::now() + 5s, fs[0], fs[1])
+                    : yaclib::WaitUntil(std::chrono::steady_clock::now() + 5s, fs[0]));
+  }
+  const long cnt = vf::L().news - n0;
+  if (producer.joinable()) {
+    producer.join();
+  }
+  yaclib::Wait(fs.begin(), fs.end());
+  return cnt;
+}
+
 class AllocBounds final : public vf::Family {
  public:
   const char* Name() const final {
@@ -166,7 +243,7 @@ class AllocBounds final : public vf::Family {
   const char* Rule() const final {
     return "case = API (WhenAll | WhenAny | Join in the iterator forms over value / void futures x FailPolicy x ready or "
            "pending inputs x optional failing input | Wait / WaitFor / WaitUntil in variadic and iterator forms over "
-           "ready or pending futures | Future::Get | Strand submission of an existing job | co_await f / Await(f) / "
+           "ready or pending Future / FutureOn handles (value and void) | Future::Get | Strand submission of an existing job | co_await f / Await(f) / "
            "Await(f,g)) x n from {1,2,3,4,8,16,64,256}; oracle = operator new calls of a combinator are <= 8 and equal "
            "for n = 16, 64 and 256; waits, Get, strand submit and co_await allocate exactly 0; non-trivial = n >= 16 or "
            "a pending (really blocking / suspending) case; distinct = parameter tuple";
@@ -209,68 +286,25 @@ class AllocBounds final : public vf::Family {
         v.Fail(b);
       }
     } else if (kind == kWait) {
-      const int m = n > 16 ? 16 : n;
-      std::vector<yaclib::Future<int>> fs;
-      std::vector<yaclib::Promise<int>> ps;
-      for (int i = 0; i < m; ++i) {
-        auto [f, p] = yaclib::MakeContract<int>();
-        fs.push_back(std::move(f));
-        ps.push_back(std::move(p));
-      }
-      std::thread producer;
-      if (pending) {
-        producer = std::thread([&] {
-          std::this_thread::sleep_for(300us);
-          for (auto& p : ps) {
-            std::move(p).Set(1);
-          }
-        });
-      } else {
-        for (auto& p : ps) {
-          std::move(p).Set(1);
-        }
-      }
-      const long n0 = vf::L().news;
-      switch (policy * 3 + form) {
+      // "plain futures" are Future<V> and FutureOn<V>, V possibly void: H(5) picks the handle type of the range
+      long cnt = 0;
+      int m = 0;
+      switch (c.H(5) % 4) {
         case 0:
-          yaclib::Wait(fs.begin(), fs.end());
+          cnt = WaitCase<yaclib::Future<int>, int>(n, policy, form, pending, m);
           break;
         case 1:
-          yaclib::Wait(fs.begin(), fs.size());
+          cnt = WaitCase<yaclib::FutureOn<int>, int>(n, policy, form, pending, m);
           break;
         case 2:
-          if (m >= 2) {
-            yaclib::Wait(fs[0], fs[1]);
-          } else {
-            yaclib::Wait(fs[0]);
-          }
-          break;
-        case 3:
-          (void)yaclib::WaitFor(5s, fs.begin(), fs.end());
-          break;
-        case 4:
-          (void)yaclib::WaitFor(5s, fs.begin(), fs.size());
-          break;
-        case 5:
-          (void)(m >= 2 ? yaclib::WaitFor(5s, fs[0], fs[1]) : yaclib::WaitFor(5s, fs[0]));
-          break;
-        case 6:
-          (void)yaclib::WaitUntil(std::chrono::steady_clock::now() + 5s, fs.begin(), fs.end());
-          break;
-        case 7:
-          (void)yaclib::WaitUntil(std::chrono::steady_clock::now() + 5s, fs.begin(), fs.size());
+          cnt = WaitCase<yaclib::Future<void>, void>(n, policy, form, pending, m);
           break;
         default:
-          (void)(m >= 2 ? yaclib::WaitUntil(std::chrono::steady_clock::now() + 5s, fs[0], fs[1])
-                        : yaclib::WaitUntil(std::chrono::steady_clock::now() + 5s, fs[0]));
+          cnt = WaitCase<yaclib::FutureOn<void>, void>(n, policy, form, pending, m);
       }
-      const long cnt = vf::L().news - n0;
-      if (producer.joinable()) {
-        producer.join();
-      }
-      yaclib::Wait(fs.begin(), fs.end());
       if (cnt != 0) {
-        std::snprintf(b, sizeof b, "Wait-family call over %d futures allocated %ld blocks (must be 0)", m, cnt);
+        std::snprintf(b, sizeof b, "Wait-family call over %d %s allocated %ld blocks (must be 0)", m,
+                      c.H(5) % 2 == 0 ? "Future handles" : "FutureOn handles", cnt);
         v.Fail(b);
       }
     } else if (kind == kGet) {
